@@ -11,22 +11,24 @@ open OttoVerif OttoVerif.F64 OttoVerif.GoStd OttoVerif.Str
 def digitValue (c : Nat) : Nat :=
   if 48 ≤ c ∧ c ≤ 57 then c - 48 else if 97 ≤ c ∧ c ≤ 102 then c - 97 + 10 else if 65 ≤ c ∧ c ≤ 70 then c - 65 + 10 else 16
 
-/-- lexer.go:685-694: `value = value*16 + float64(digit)` — one float64 rounding per digit -/
-def hexLoop : List Nat → FV → Option FV
-  | [], v => some v
-  | c :: r, v => if digitValue c ≥ 16 then none else hexLoop r (F64.add (F64.mul v (F64.ofNat 16)) (F64.ofNat (digitValue c)))
+/-- `new(big.Int).SetString(literal, 0)` for the integer forms the scanner produces: 0x/0X hexadecimal, leading-0 octal,
+    decimal -/
+def bigValue (lit : List Nat) : Option Nat :=
+  let val (base : Nat) (ds : List Nat) : Option Nat :=
+    if ds.isEmpty then none else
+    ds.foldl (fun acc c => acc.bind fun v => if digitValue c < base then some (v * base + digitValue c) else none) (some 0)
+  match lit with
+  | 48 :: x :: ds => if x = 120 ∨ x = 88 then val 16 ds else val 8 (x :: ds)
+  | _ => val 10 lit
 
-/-- lexer.go:661 parseNumberLiteral; the result is the float64 the runtime later makes of the int64/float64 value -/
+/-- parseNumberLiteral; the result is the float64 the runtime later makes of the int64/float64 value -/
 def parseNumberLiteral (lit : List Nat) : Option FV :=
   match parseInt lit 0 with
-  | .ok i => some (F64.ofInt i)                                   -- :663-666
+  | .ok i => some (F64.ofInt i)                                   -- ParseInt succeeded
   | pi =>
-    match parseFloat lit with                                     -- :670 (ErrRange keeps ±Inf, :673-676)
-    | some v => some v
-    | none =>
-      match pi, lit with                                          -- :682-696
-      | .range, 48 :: x :: d :: rest => if x = 120 ∨ x = 88 then hexLoop (d :: rest) (F64.ofNat 0) else none
-      | _, _ => none
+    match pi, bigValue lit with
+    | .range, some n => some (F64.ofRatParts false n 1)           -- integer too large for int64: big.Int → big.Float → Float64 (one rounding)
+    | _, _ => parseFloat lit                                      -- ParseFloat (ErrRange keeps ±Inf)
 
 def hex2decimal (c : Nat) : Option Nat :=
   if 48 ≤ c ∧ c ≤ 57 then some (c - 48) else if 97 ≤ c ∧ c ≤ 102 then some (c - 97 + 10) else if 65 ≤ c ∧ c ≤ 70 then some (c - 65 + 10) else none
@@ -38,15 +40,27 @@ def hexN : Nat → List Nat → Nat → Option Nat
 
 def isOct (c : Nat) : Bool := 48 ≤ c ∧ c ≤ 55
 
-/-- up to two further octal digits (lexer.go:789-802) -/
-def octMore (v : Nat) (s : List Nat) : Nat × List Nat :=
+/-- up to `two ? 2 : 1` further octal digits (an escape starting with 4–7 takes at most one more) -/
+def octMore (two : Bool) (v : Nat) (s : List Nat) : Nat × List Nat :=
   match s with
   | a :: r => if isOct a then
-      (match r with
-       | b :: r' => if isOct b then ((v * 8 + (a - 48)) * 8 + (b - 48), r') else (v * 8 + (a - 48), r)
-       | [] => (v * 8 + (a - 48), r))
+      (if two then
+        (match r with
+         | b :: r' => if isOct b then ((v * 8 + (a - 48)) * 8 + (b - 48), r') else (v * 8 + (a - 48), r)
+         | [] => (v * 8 + (a - 48), r))
+       else (v * 8 + (a - 48), r))
     else (v, s)
   | [] => (v, s)
+
+/-- `utf16.IsSurrogate(value) && str starts with \\uXXXX && utf16.DecodeRune(value, low) != RuneError` -/
+def pairLow (v : Nat) (s : List Nat) : Option (Nat × List Nat) :=
+  if 0xD800 ≤ v ∧ v < 0xDC00 then
+    match s with
+    | 92 :: 117 :: r6 =>
+      (hexN 4 r6 0).bind fun lo =>
+        if 0xDC00 ≤ lo ∧ lo < 0xE000 then some (0x10000 + (v - 0xD800) * 1024 + (lo - 0xDC00), r6.drop 4) else none
+    | _ => none
+  else none
 
 /-- the loop of lexer.go:715-821; `buf` is the bytes.Buffer -/
 def strLoop : Nat → List Nat → List Nat → Option (List Nat)
@@ -62,9 +76,11 @@ def strLoop : Nat → List Nat → List Nat → Option (List Nat)
       match rest with
       | [] => none                                                               -- :731 panic
       | chr :: str =>
-        if chr ≥ 0x80 then                                                       -- :736-740
+        if chr ≥ 0x80 then                                                       -- `\` + non-ASCII character
           match decodeRune (chr :: str) with
-          | some (r, w) => strLoop fuel ((chr :: str).drop w) (buf ++ encodeRune r)
+          | some (r, w) =>
+            if r = 0x2028 ∨ r = 0x2029 then strLoop fuel ((chr :: str).drop w) buf      -- line continuation
+            else strLoop fuel ((chr :: str).drop w) (buf ++ encodeRune r)
           | none => none
         else if chr = 98 then strLoop fuel str (buf ++ [8])
         else if chr = 102 then strLoop fuel str (buf ++ [12])
@@ -74,12 +90,15 @@ def strLoop : Nat → List Nat → List Nat → Option (List Nat)
         else if chr = 118 then strLoop fuel str (buf ++ [11])
         else if chr = 120 then                                                   -- \x :756-777
           (hexN 2 str 0).bind fun v => strLoop fuel (str.drop 2) (buf ++ encodeRune v)
-        else if chr = 117 then                                                   -- \u
-          (hexN 4 str 0).bind fun v => strLoop fuel (str.drop 4) (buf ++ encodeRune v)
+        else if chr = 117 then                                                   -- \u; an escaped surrogate pair is one character
+          (hexN 4 str 0).bind fun v =>
+            match pairLow v (str.drop 4) with
+            | some (r, s') => strLoop fuel s' (buf ++ encodeRune r)
+            | none => strLoop fuel (str.drop 4) (buf ++ encodeRune v)
         else if chr = 48 ∧ !(match str with | a :: _ => isOct a | [] => false) then  -- :781-785
           strLoop fuel str (buf ++ [0])
         else if 48 ≤ chr ∧ chr ≤ 55 then                                         -- :787-802
-          let (v, s') := octMore (chr - 48) str
+          let (v, s') := octMore (decide (chr < 52)) (chr - 48) str
           strLoop fuel s' (buf ++ encodeRune v)
         else if chr = 13 then                                                    -- :807-813
           strLoop fuel (match str with | 10 :: s' => s' | _ => str) buf
